@@ -1,13 +1,13 @@
 // LD_PRELOAD shim: decides the result of the child's read/write/open system calls.
 //
 // KSIM_FAULT_PLAN = rule;rule;...   rule = <class>:<op>:<k>:<action>
-//   class  in | out | f=<basename>      (fd 0, fd 1, descriptors opened on a path with that basename)
+//   class  in | out | err | f=<basename> (fd 0, fd 1, fd 2, descriptors opened on a path with that basename)
 //   op     r | w | o                    (read, write, open)
 //   k      call index among the calls of that (class, op), 0-based, or * for every call
 //   action E<errno>                     fail with that errno
 //          C<n>                         cap the transfer to n bytes (short read / partial write)
 // KSIM_FAULT_LOG  = file to which one line per intercepted call of a planned class is appended.
-// stderr (fd 2) is never touched. The shim uses raw syscalls for its own I/O.
+// stderr (fd 2) is only touched by rules of class `err`. The shim uses raw syscalls for its own I/O.
 #define _GNU_SOURCE
 #include <dlfcn.h>
 #include <errno.h>
@@ -68,6 +68,7 @@ static const char *base(const char *path) {
 static const char *cls_of_fd(int fd, char *tmp) {
     if (fd == 0) return "in";
     if (fd == 1) return "out";
+    if (fd == 2) return "err";
     if (fd > 2 && fd < MAXFD && fdname[fd][0]) {
         snprintf(tmp, 80, "f=%s", fdname[fd]);
         return tmp;
@@ -127,7 +128,7 @@ ssize_t read(int fd, void *buf, size_t n) {
 
 ssize_t write(int fd, const void *buf, size_t n) {
     char tmp[96];
-    const char *cls = (fd == 2) ? NULL : cls_of_fd(fd, tmp);
+    const char *cls = cls_of_fd(fd, tmp);
     if (cls && planned(cls)) {
         int err = 0; long cap = 0;
         int d = decide(cls, 'w', &err, &cap);
